@@ -102,14 +102,17 @@ REDIRECTS += ["http://a.com/%49ndex.html", "http://a.com/x/%44efault.aspx", "htt
 REDIRECTS += ["http://a.com/?u\x01rl=http%3A%2F%2Fb.c%2F", "http://a.com/?x=1&amp;url=http%3A%2F%2Fb.c%2F", "https://amp-a-com.cdn.ampproject.org/v/s/../s/a.com/y",
               "https://amp-a-com.cdn.ampproject.org/v/./s/a.com/y", "https://amp-a-com.cdn.ampproject.org/v/s/a.com/x/../y", "\x85http://a.com/p?u=/x"]
 # pairs that are easy to confuse: when they have the same canonical / normalized form they must agree on the next scheme too
-PAIRS = [("http://a.com/x?Q=http://b.com", "http://b.com"), ("http://a.com/x?q=http://b.com", "http://a.com/x?Q=http://b.com"), ("a.com?ref=%46b", "a.com?ref=Fb"),
+PAIRS = [("http://a.com/?%75rl=http://b.com/x", "http://a.com/?u\x01rl=http://b.com/x"), ("http://a.com/%49ndex.html", "http://a.com/%4\x019ndex.html"),
+         ("http://a.com/x?Q=http://b.com", "http://b.com"), ("http://a.com/x?q=http://b.com", "http://a.com/x?Q=http://b.com"), ("a.com?ref=%46b", "a.com?ref=Fb"),
          ("a.com/p?u=HTTP://B.COM/x", "b.com/x"), ("a.com/Index.html", "a.com/"),
          # items that only some hosts drop (per-domain filters): dropped by normalize_url, so the fingerprints must not tell the two apart
          ("https://www.youtube.com/watch?v=abcdefghijk&t=42s", "https://www.youtube.com/watch?v=abcdefghijk"),
          ("https://www.youtube.com/results?search_query=a&si=xyz", "https://www.youtube.com/results?search_query=a"),
          ("https://www.facebook.com/p?_rdr&id=1", "https://www.facebook.com/p?id=1"), ("a.com/INDEX.php/default.aspx", "a.com/INDEX.php"), ("https://a.com/", "a.com:443"), ("http://a.com:0/", "http://a.com/")]
 WRAPS = [("\x08 ", ""), (" \x00", " "), ("\x1b\t", "\x7f "), ("", " \x01"), ("\x00 \x00 ", "")]
-HOSTS_EXTRA = ["fr.a.com", "fr-FR.a.com", "www.fr.a.com", "m.a.com", "amp.a.com", "amp-x.a.com", "a.co.uk", "A.COM:8080", "youtube.com", "www.facebook.com", "fr.facebook.com"]
+HOSTS_EXTRA = ["fr.a.com", "fr-FR.a.com", "www.fr.a.com", "m.a.com", "amp.a.com", "amp-x.a.com", "a.co.uk", "A.COM:8080", "youtube.com", "www.facebook.com", "fr.facebook.com",
+               # punycode whose decoded form starts with an irrelevant prefix (decoding and label stripping do not commute)
+               "xn--amp-caf-hya.fr", "www.xn--amp-caf-hya.fr", "XN--AMP-CAF-HYA.fr"]
 
 
 def shard(job):
